@@ -445,6 +445,16 @@ pub fn check_iter(prop: &str, case: &ConcCase, res: &IterResult) -> IterVerdict 
             }
         }
     }
+    // value clauses belong to C16 / C18 / C14 / C20 / C21 / C11 / C24; the other checks only count them
+    if matches!(prop, "C17" | "C19" | "C08") {
+        let keep: Vec<String> = v
+            .iter()
+            .filter(|m| !m.contains("reference says"))
+            .cloned()
+            .collect();
+        c.add("value_mismatches_not_judged_here", (v.len() - keep.len()) as u64);
+        v = keep;
+    }
     // ---- C17: at most one execution per key per revision
     if matches!(prop, "C17" | "C16") && !cyclic && !has_cancel {
         let mut seen: HashMap<(K, u64), u32> = HashMap::new();
@@ -989,6 +999,31 @@ fn has_mixed_cycle(case: &ConcCase) -> bool {
 
 /// Returns the known-finding signature for this violating iteration, if it fits one exactly.
 pub fn classify_conc(case: &ConcCase, res: &IterResult, violations: &[String]) -> Option<&'static str> {
+    let all_fix = case
+        .prog
+        .nodes
+        .iter()
+        .all(|n| matches!(n.kind, Kind::Fix | Kind::FixJ));
+    if all_fix && !res.stuck && violations.iter().all(|v| v.contains("reference says") && v.contains("returned Val(")) {
+        // the `_changed` pattern can run into known finding F5 (stale inner head): classified by the
+        // single-threaded classifier on the post-phase requests (same log format)
+        for (q, out) in &res.post {
+            if let Req::Node(n) = q {
+                if let Some(Expect::Val(x)) = cyc_expect("C12", &case.prog, &res.final_inp, *n) {
+                    if *out != Outcome::Val(x) {
+                        return crate::camp_single::classify_cyc_mismatch(
+                            &case.prog,
+                            &res.final_inp,
+                            &res.log,
+                            *n,
+                            out,
+                        );
+                    }
+                }
+            }
+        }
+        return None;
+    }
     if !has_mixed_cycle(case) {
         return None;
     }
@@ -1066,7 +1101,10 @@ pub fn conc_case(o: &Opts, case_seed: u64) -> CaseReport {
                 a.ilvs.insert(ver.ilv);
             }
             if !ver.violations.is_empty() {
-                a.violation = Some(ver.violations.join(" | "));
+                let sig = classify_conc(&case2, &res, &ver.violations)
+                    .map(|s| format!(" [sig:{s}]"))
+                    .unwrap_or_default();
+                a.violation = Some(format!("{}{sig}", ver.violations.join(" | ")));
             }
         };
         let dir = format!("{}/{}/schedules", o.out, o.prop);
